@@ -28,7 +28,7 @@ REQUIRED_MONITORS = ['one_result_per_input', 'no_abort', 'results_mode_independe
                      'exactly_once_output', 'valid_files_converted', 'worker_events', 'overlapping_tasks_seen']
 MIN_NONTRIVIAL = {'quick': 8, 'thorough': 150}
 NSHARDS = {'quick': 8, 'thorough': 12}
-DIRS = {'quick': 2, 'thorough': 26}            # directories per shard
+DIRS = {'quick': 4, 'thorough': 30}            # directories per shard
 JOBS = {'quick': [2, 4, 16], 'thorough': [1, 2, 3, 4, 8, 16]}
 DELAY_SEEDS = {'quick': 1, 'thorough': 3}
 TIMEOUT_S = {'quick': 420, 'thorough': 3400}
